@@ -59,12 +59,14 @@ fn main() {
         ("c18", None) => m10::run_c18(&args),
         ("c18", Some(p)) => m5::replay(&args, "C18", p),
         ("cli09", None) => cli::run_cli_flags(&args, "C09"),
+        ("cli10", None) => cli::run_cli_flags(&args, "C10"),
         ("cli04", None) => cli::run_cli_flags(&args, "C04"),
         ("cli06", None) => cli::run_cli_flags(&args, "C06"),
         ("cli07", None) => cli::run_cli_flags(&args, "C07"),
         ("cli11", None) => cli::run_cli_flags(&args, "C11"),
         ("cli13", None) => cli::run_cli_flags(&args, "C13"),
         ("cli09", Some(p)) => m5::replay(&args, "C09", p),
+        ("cli10", Some(p)) => m5::replay(&args, "C10", p),
         ("cli04", Some(p)) => m5::replay(&args, "C04", p),
         ("cli06", Some(p)) => m5::replay(&args, "C06", p),
         ("cli07", Some(p)) => m5::replay(&args, "C07", p),
